@@ -2221,8 +2221,10 @@ class VM:
             return expand(replacer, matched, position, captures)
 
         def as_replacer(value):
-            if isinstance(value, JSFunction) or (
-                callable(value) and not isinstance(value, JSObject)
+            if (
+                isinstance(value, JSFunction)
+                or (callable(value) and not isinstance(value, JSObject))
+                or hasattr(value, "_call_fn")  # built-in constructors (String, Number ...)
             ):
                 return value
             return to_string(value)
